@@ -85,7 +85,7 @@ TTick == /\ IsEvent("tick") /\ LoopKnown
 TCheck == /\ IsEvent("check") /\ LoopKnown /\ E.tgt \in MacU
           /\ Do(LoopCheckM(E.l, E.tgt), [kind |-> "check", l |-> E.l, hunting |-> E.hunting, tgt |-> E.tgt], LoopCheckR(E.l))
 TAct == /\ IsEvent("act") /\ LoopKnown
-        /\ Do(LoopActM(E.l), [kind |-> "act", l |-> E.l, done |-> E.done], LoopActR(E.l))
+        /\ Do(LoopActM(E.l, TRUE), [kind |-> "act", l |-> E.l, done |-> E.done], LoopActR(E.l))
 TRecv == /\ IsEvent("recv") /\ E.sm \in Targets /\ E.es \in Targets /\ E.si \in IpU /\ E.ti \in IpU
          /\ Do(RecvM(E.op, E.es, E.sm, E.si, E.ti),
                [kind |-> "recv", op |-> E.op, es |-> E.es, sm |-> E.sm, si |-> E.si, ti |-> E.ti], RecvR)
@@ -108,13 +108,13 @@ TRtCheck == /\ IsEvent("rt.check") /\ LoopKnown /\ E.tgt \in MacU
 TRtFrame == /\ IsEvent("rt.frame") /\ Len(E.frames) = 1
             /\ IF Mode = "M"
                THEN \E k \in 1..Len(loops) :
-                       Do(LoopActM(k), [kind |-> "act", l |-> k, done |-> loops[k].pc = "correct"], LoopActR(k))
+                       Do(LoopActM(k, FALSE), [kind |-> "act", l |-> k, done |-> loops[k].pc = "correct"], LoopActR(k))
                ELSE /\ E.l \in 1..Len(rl)
                     /\ Do(TRUE, [kind |-> "act", l |-> E.l, done |-> FrameKind(LFrames[1]) = "restore"], LoopActR(E.l))
 \* the loop goroutine returned: either it already ended with its corrective frame, or it ends silently now
 TRtDone == /\ IsEvent("rt.done") /\ LoopKnown /\ E.frames = <<>>
            /\ IF rl[E.l].alive
-              THEN Do(LoopActM(E.l), [kind |-> "act", l |-> E.l, done |-> TRUE], LoopActR(E.l))
+              THEN Do(LoopActM(E.l, FALSE), [kind |-> "act", l |-> E.l, done |-> TRUE], LoopActR(E.l))
               ELSE NoteStep(loops[E.l].pc = "done")
 
 \* the library panicked inside this step (reported by the check itself); the driver abandons the
